@@ -1,6 +1,7 @@
 use crate::common::Ctx;
 use serde_json::Value;
 
+pub mod c02;
 pub mod c03;
 pub mod c04;
 pub mod c05;
@@ -24,6 +25,7 @@ type ReplayFn = fn(&Ctx, &Value) -> Result<(bool, String), String>;
 
 fn table(prop: &str) -> Option<(RunFn, ReplayFn)> {
     Some(match prop {
+        "C02" => (c02::run, c02::replay),
         "C03" => (c03::run, c03::replay),
         "C04" => (c04::run, c04::replay),
         "C05" => (c05::run, c05::replay),
